@@ -5,6 +5,7 @@ package main
 // count / extremes (C10, C16, C17), written independently of the library.
 
 import (
+	"math/big"
 	"fmt"
 	"math"
 
@@ -73,6 +74,44 @@ func (r *Runner) execStat(a []string) string {
 		}
 		ops := a[4:]
 		first := true
+		// exact bookkeeping for the sum (C10: error at most a few ulps of the total of |value*weight|): valid while
+		// every operand is finite; the starting sum is the float f[1] itself (compensation 0)
+		track := !anyNaN(f[0], f[1], f[2], f[3]) && !math.IsInf(f[1], 0)
+		exact, absTot := new(big.Rat), new(big.Rat)
+		if track {
+			exact.SetFloat64(f[1])
+			absTot.Abs(exact)
+		}
+		fin := func(xs ...float64) bool {
+			for _, x := range xs {
+				if math.IsNaN(x) || math.IsInf(x, 0) {
+					return false
+				}
+			}
+			return true
+		}
+		rat := func(x float64) *big.Rat { return new(big.Rat).SetFloat64(x) }
+		checkSum := func(what string) {
+			if !track {
+				return
+			}
+			a, _ := absTot.Float64()
+			if a > 1e300 || math.IsInf(st.Sum(), 0) || math.IsNaN(st.Sum()) {
+				track = false
+				return
+			}
+			got := rat(st.Sum())
+			d := new(big.Rat).Sub(got, exact)
+			d.Abs(d)
+			ulp := math.Nextafter(a, math.Inf(1)) - a
+			tol := new(big.Rat).Add(new(big.Rat).Mul(rat(ulp), big.NewRat(8, 1)), rat(math.SmallestNonzeroFloat64*64))
+			if d.Cmp(tol) > 0 {
+				df, _ := d.Float64()
+				ef, _ := exact.Float64()
+				r.oracleFail("stat-sum-accuracy", fmt.Sprintf("after %s: Sum()=%v, exact sum %v (total of |value*weight| %v): error %v = %.3g ulps", what, st.Sum(), ef, a, df, df/ulp))
+				track = false
+			}
+		}
 		for len(ops) > 0 {
 			// the direct oracle describes one operation on freshly constructed statistics (compensation 0)
 			clean := first && !anyNaN(f[0], f[1], f[2], f[3]) && !math.IsInf(f[1], 0)
@@ -86,6 +125,14 @@ func (r *Runner) execStat(a []string) string {
 				if !ok {
 					out = "bad-op"
 					return
+				}
+				if ops[0] == "addsum" {
+					if track && fin(k) {
+						exact.Add(exact, rat(k))
+						absTot.Add(absTot, new(big.Rat).Abs(rat(k)))
+					} else {
+						track = false
+					}
 				}
 				if ops[0] == "addcount" {
 					st.AddToCount(k)
@@ -107,6 +154,13 @@ func (r *Runner) execStat(a []string) string {
 				}
 				ops = ops[2:]
 				st.Rescale(k)
+				if track && fin(k) {
+					exact.Mul(exact, rat(k))
+					absTot.Mul(absTot, new(big.Rat).Abs(rat(k)))
+					checkSum(fmt.Sprintf("Rescale(%v)", k))
+				} else {
+					track = false
+				}
 				// unit change by a positive factor: count kept, extremes scaled (C17); min <= max kept for any factor
 				if clean && cur[0] > 0 && !math.IsNaN(k) && !math.IsInf(k, 0) {
 					if st.Count() != cur[0] {
@@ -127,6 +181,13 @@ func (r *Runner) execStat(a []string) string {
 				}
 				ops = ops[2:]
 				st.Reweight(k)
+				if track && fin(k) {
+					exact.Mul(exact, rat(k))
+					absTot.Mul(absTot, new(big.Rat).Abs(rat(k)))
+					checkSum(fmt.Sprintf("Reweight(%v)", k))
+				} else {
+					track = false
+				}
 				// C16: count and sum scale, extremes unchanged (factor > 0)
 				if clean && k > 0 && !math.IsInf(k, 0) {
 					if st.Count() != cur[0]*k || st.Min() != cur[2] || st.Max() != cur[3] {
@@ -145,6 +206,14 @@ func (r *Runner) execStat(a []string) string {
 				}
 				ops = ops[3:]
 				st.Add(v, w)
+				if track && fin(v, w) {
+					pr := new(big.Rat).Mul(rat(v), rat(w))
+					exact.Add(exact, pr)
+					absTot.Add(absTot, pr.Abs(pr))
+					checkSum(fmt.Sprintf("Add(%v,%v)", v, w))
+				} else {
+					track = false
+				}
 				if clean && !anyNaN(v, w) {
 					if st.Count() != cur[0]+w || st.Min() != math.Min(cur[2], v) || st.Max() != math.Max(cur[3], v) {
 						r.oracleFail("stat-add", fmt.Sprintf("Add(%v,%v) to count %v [%v,%v] gives %s", v, w, cur[0], cur[2], cur[3], showStat(st)))
@@ -168,6 +237,13 @@ func (r *Runner) execStat(a []string) string {
 				}
 				before := showStat(o)
 				st.MergeWith(o)
+				if track && fin(g[0], g[1], g[2], g[3]) {
+					exact.Add(exact, rat(g[1]))
+					absTot.Add(absTot, new(big.Rat).Abs(rat(g[1])))
+					checkSum("MergeWith")
+				} else {
+					track = false
+				}
 				if after := showStat(o); after != before {
 					r.oracleFail("stat-merge", "MergeWith changed its argument: "+before+" -> "+after)
 				}
